@@ -7,6 +7,8 @@ use crate::probes::{Caller, CallerClient};
 use crate::world::*;
 use axelar_gateway::types::Message;
 use proptest::prelude::*;
+#[allow(unused_imports)]
+use crate::prop_oneof;
 use serde::{Deserialize, Serialize};
 use soroban_sdk::testutils::{Address as _, MockAuth, MockAuthInvoke};
 use soroban_sdk::{Address, BytesN, Env, IntoVal};
